@@ -68,6 +68,17 @@ def body_effects(model: RepoModel, f: Func, body: List[ast.stmt], allocs: Set[st
                             eff.setdefault(k + f" (via {callee.name})", []).append(n.lineno)
             if isinstance(n, (ast.Break, ast.Return)):
                 eff.setdefault("first match wins (break/return)", []).append(n.lineno)
+            # a text carried from one iteration to the next and rewritten per element: `line = re.sub(pat(elem), repl, line)`
+            if isinstance(n, ast.Assign) and len(n.targets) == 1 and isinstance(n.targets[0], ast.Name):
+                v = n.targets[0].id
+                for c in ast.walk(n.value):
+                    if isinstance(c, ast.Call):
+                        cn2 = call_name(c) or ""
+                        last2 = c.func.attr if isinstance(c.func, ast.Attribute) else cn2
+                        reads_v = any(isinstance(x, ast.Name) and x.id == v for a in list(c.args) + [k.value for k in c.keywords] for x in ast.walk(a)) or \
+                            (isinstance(c.func, ast.Attribute) and isinstance(c.func.value, ast.Name) and c.func.value.id == v)
+                        if reads_v and (cn2 in ("re.sub", "re.subn") or last2 in ("replace", "sub", "subn", "translate")):
+                            eff.setdefault("rewrites a text carried across iterations (overlapping patterns do not commute)", []).append(n.lineno)
     return eff
 
 
@@ -142,6 +153,9 @@ def run(model: RepoModel, rep, tier: str):
                        "or picks a first match, unless sorted", min_instances=10)
     rep.rule("C14.R4", "a forced run starts from an empty workspace: the wipe visits every entry, so results cannot depend on what an "
                        "earlier run left behind", min_instances=1)
+    rep.rule("C14.R5", "what a file is (project code or extern mock code) is decided by its path relative to the workspace, never by a substring "
+                       "of its absolute path: otherwise the result depends on where the workspace happens to be located", 1)
+    _r5_location_independence(model, rep)
     rep.rule("C14.R3", "no clock, pid, random or object identity value reaches an identifier or a stored result", min_instances=2)
 
     # ------------------------------------------------------------------ R1
@@ -243,8 +257,19 @@ def run(model: RepoModel, rep, tier: str):
             n_sites += 1
             key = f"{f.ref}::for over set `{norm(it)}`"
             kind, ev = ("unknown", "") if what[0] == "expr" else _elem_kind(f, what[1], what[0] == "attr", model)
+            if kind == "unknown" and isinstance(n.target, ast.Name):
+                # how the loop uses its element tells its kind: receiver of string-only methods, argument of re.escape / os.path.*
+                tv = n.target.id
+                STR_METHODS = ("replace", "strip", "lstrip", "rstrip", "startswith", "endswith", "split", "lower", "upper", "encode", "format", "join", "splitlines")
+                for x in ast.walk(n):
+                    if isinstance(x, ast.Call) and isinstance(x.func, ast.Attribute) and isinstance(x.func.value, ast.Name) and x.func.value.id == tv \
+                            and x.func.attr in STR_METHODS:
+                        kind, ev = "str", f"{tv}.{x.func.attr}(...) in the loop body"
+                    if isinstance(x, ast.Call) and (call_name(x) or "") in ("re.escape", "os.path.join", "os.path.basename", "os.path.dirname") \
+                            and any(isinstance(a, ast.Name) and a.id == tv for a in x.args):
+                        kind, ev = "str", f"{call_name(x)}({tv}) in the loop body"
             eff = body_effects(model, f, n.body, allocs)
-            sensitive = sorted(k for k in eff if k.startswith("allocates") or k.startswith("appends") or k.startswith("first match"))
+            sensitive = sorted(k for k in eff if k.startswith("allocates") or k.startswith("appends") or k.startswith("first match") or k.startswith("rewrites"))
             if kind == "int":
                 rep.holds("C14.R2", key, f.module.rel, n.lineno, f"elements are ints ({ev}): set order does not depend on the hash seed")
             elif not sensitive:
@@ -401,11 +426,84 @@ def run(model: RepoModel, rep, tier: str):
 
 
 # ---------------------------------------------------------------- self-test mutants
+LOCATION_TESTS_OK = {
+    ("preparation.py", "WorkspaceBuilder.run"): "an *input* path below a directory called lian_workspace is skipped: depends on the input's location, "
+                                                "which C14 does not quantify over (the outputs of a given workspace location are unaffected)",
+    ("main.py", "Lian.set_workspace_dir"): "only decides whether the default directory name is appended to -w; changes where the workspace is, "
+                                           "not what is computed in it",
+}
+
+
+def _r5_location_independence(model: RepoModel, rep):
+    n = 0
+    for rel, mod in sorted(model.modules.items()):
+        if rel.startswith("lang/") and rel != "lang/lang_analysis.py":
+            continue
+        for f in mod.all_funcs():
+            for c in walk_no_nested(f.node):
+                if not (isinstance(c, ast.Compare) and len(c.ops) == 1 and isinstance(c.ops[0], (ast.In, ast.NotIn))):
+                    continue
+                left, right = c.left, c.comparators[0]
+                rt = norm(right).lower()
+                if isinstance(right, (ast.Tuple, ast.List, ast.Set, ast.Dict)) or not ("path" in rt or "workspace" in rt):
+                    continue
+                lt = norm(left)
+                names_ws = any(isinstance(x, ast.Attribute) and x.attr in ("EXTERNS_DIR", "DEFAULT_WORKSPACE", "SOURCE_CODE_DIR") for x in ast.walk(left)) \
+                    or any(isinstance(x, ast.Constant) and isinstance(x.value, str) and ("externs" in x.value or "lian_workspace" in x.value) for x in ast.walk(left)) \
+                    or (isinstance(left, ast.Name) and "workspace" in left.id)
+                if not names_ws:
+                    continue
+                n += 1
+                key = f"{rel}::{f.qualname}::`{norm(c)[:90]}`"
+                adj = LOCATION_TESTS_OK.get((rel, f.qualname))
+                if adj:
+                    rep.info("C14.R5", key, rel, c.lineno, "adjudicated: " + adj)
+                else:
+                    rep.violation("C14.R5", key, rel, c.lineno,
+                                  f"{f.qualname} classifies a file by `{norm(c)[:90]}`, a substring test on an absolute path: with the workspace (or "
+                                  f"any directory above it) named accordingly, e.g. -w /x/lian_workspace/externs/run, project files are taken for "
+                                  f"extern mock code and lowered differently -- the output depends on the workspace location")
+    # the positive form: membership decided against <workspace>/<dir>
+    la = model.module("lang/lang_analysis.py")
+    pf = next((cl.methods["parse"] for cl in la.classes.values() if "parse" in cl.methods and any(
+        isinstance(x, ast.Attribute) and x.attr == "MOCK_SOURCE_CODE_READY" for x in ast.walk(cl.methods["parse"].node))), None)
+    key = "lang/lang_analysis.py::GIRParser.parse::mock code is recognised relative to the workspace"
+    if pf is None:
+        rep.unknown("C14.R5", key, "lang/lang_analysis.py", 0, "the place where MOCK_SOURCE_CODE_READY is raised was not found")
+        return
+    guards = [t for t in walk_no_nested(pf.node) if isinstance(t, ast.If) and any(isinstance(x, ast.Attribute) and x.attr == "MOCK_SOURCE_CODE_READY" for b in t.body for x in ast.walk(b))]
+    g = guards[-1] if guards else None
+    anchored = g is not None and isinstance(g.test, ast.Call) and isinstance(g.test.func, ast.Attribute) and g.test.func.attr == "startswith" \
+        and any(isinstance(x, ast.Attribute) and x.attr == "workspace" for a in g.test.args for x in ast.walk(_expand_local(pf, a)))
+    if anchored:
+        rep.holds("C14.R5", key, "lang/lang_analysis.py", g.lineno, f"`{norm(g.test)[:90]}` with the prefix built from options.workspace")
+    elif g is not None and n == 0:
+        rep.unknown("C14.R5", key, "lang/lang_analysis.py", g.lineno, f"guard `{norm(g.test)[:90]}` not recognised")
+
+
+def _expand_local(f: Func, e):
+    if isinstance(e, ast.BinOp):
+        return ast.BinOp(left=_expand_local(f, e.left), op=e.op, right=_expand_local(f, e.right))
+    if isinstance(e, ast.Name):
+        ds = [a.value for a in walk_no_nested(f.node) if isinstance(a, ast.Assign) and isinstance(a.targets[0], ast.Name) and a.targets[0].id == e.id]
+        if len(ds) == 1:
+            return ds[0]
+    return e
+
+
 def _t(old, new):
     return lambda src: __import__("sa.mutate", fromlist=["x"]).text_replace(src, old, new)
 
 
 MUTANTS = [
+    ("mock-code-recognised-by-substring", "lang/lang_analysis.py",
+     lambda src: _t("            if os.path.realpath(file_path).startswith(externs_root + os.sep):", "            if f\"{os.sep}{config.EXTERNS_DIR}{os.sep}\" in file_path:")(src),
+     "GIRParser.parse::`"),
+    ("import-rewrites-in-set-order", "events/default_event_handlers/basic.py",
+     lambda src: _t("            for old_name, new_name in replacements.items():\n", "            for old_name in dotted_names:\n                new_name = old_name.replace('.', '_')\n")(
+         _t("                    replacements[name] = new_name\n", "                    dotted_names.add(name)\n")(
+             _t("    replacements = {}  # Dictionary to map original names to new names\n", "    dotted_names = set()\n")(src))),
+     "for over set `dotted_names`"),
     ("import-nodes-via-set", "basics/import_hierarchy.py", _t("                return list(import_nodes)", "                return list(set(import_nodes))"), "list(set(import_nodes))"),
     ("ts-array-types-unsorted", "lang/typescript_parser.py", _t("        data_type = sorted(data_type)", "        data_type = list(data_type)"), "typescript_parser.py"),
     ("wipe-skips-externs", "preparation.py", _t("            for filename in os.listdir(path):\n                file_path = os.path.join(path, filename)\n                try:\n                    if os.path.isfile(file_path) or os.path.islink(file_path):\n                        os.unlink(file_path)\n                    elif os.path.isdir(file_path):\n                        shutil.rmtree(file_path)\n                except Exception as e:\n                    util.error_and_quit(f\"Failed to delete {file_path}. Reason: {e}\")\n\n    def obtain",
